@@ -242,9 +242,48 @@ func c05FromParallelCalls(w *core.Worker, i int) {
 	w.Count("statements_run_from_parallel_calls", int64(4*n))
 }
 
+// c05TwoAliases: one table named twice in the FROM clause, both aliases targets of one DELETE / UPDATE. The statement removes
+// (rewrites) what it says for each alias.
+func c05TwoAliases(w *core.Worker, i int) {
+	r := w.Rng(i, "two-aliases")
+	n := r.Range(3, 9)
+	var sb strings.Builder
+	sb.WriteString("id,a,b\n")
+	for k := 1; k <= n; k++ {
+		fmt.Fprintf(&sb, "%d,x,y\n", k)
+	}
+	files := map[string]string{"sj.csv": sb.String()}
+	core.WriteFiles(w.Work, files)
+	s, err := core.NewSess(core.SessOpts{Dir: w.Work, Quiet: true})
+	if err != nil {
+		w.Inconclusive(err.Error())
+		return
+	}
+	defer s.Close()
+	for _, c := range []struct{ stmt, probe, want string }{
+		// p ranges over ids 2..n, q over 1..n-1: together every row
+		{"DELETE p, q FROM sj p JOIN sj q ON p.id = q.id + 1;", "SELECT COUNT(*) FROM sj;", "0"},
+		{"UPDATE p, q SET p.a = 'P', q.b = 'Q' FROM sj p JOIN sj q ON p.id = q.id;", "SELECT COUNT(*) FROM sj WHERE a = 'P' AND b = 'Q';", strconv.Itoa(n)},
+	} {
+		hist := []string{c.stmt, c.probe}
+		if res := s.Exec(c.stmt); res.Err != nil {
+			continue // (a refusal would be a clean answer)
+		}
+		res := s.Exec(c.probe)
+		if res.Err == nil && len(res.Views) == 1 && res.Views[0].Rows[0][0].S != c.want {
+			w.Violation("two-aliases-of-one-table-as-targets", fmt.Sprintf("%s on a table of %d rows: %s gives %s, expected %s (each alias worked on its own copy of the table and one copy replaced the other)", c.stmt, n, c.probe, res.Views[0].Rows[0][0].S, c.want), c05Replay{Files: files, History: hist, Detail: c.stmt})
+		}
+		s.Exec("ROLLBACK;")
+		w.Count("statements_with_two_aliases_of_one_table_as_targets", 1)
+	}
+}
+
 func c05Case(w *core.Worker, i int) {
 	if i%60 == 13 {
 		c05FromParallelCalls(w, i)
+	}
+	if i%100 == 17 {
+		c05TwoAliases(w, i)
 	}
 	r := w.Rng(i, "")
 	big := i%6 == 5
